@@ -45,5 +45,11 @@ def run(tier, seed, repo, focus=None):
                 continue
             scns.append({"det": name, "variant": 0, "seed": seed, "n": n, "which": which})
     drivers.run_scenarios(res, "containers", scns, known)
+    scns = []
+    for name in ("KdqTreeStreaming", "PCACD", "KdqTreeBatch", "HDDDM", "NNDVI"):
+        for prefix in (["df"], ["arr"], ["list"], ["df", "arr"], ["arr", "df"], ["df", "df"], ["list", "arr", "df"]):
+            for bad in ("df", "arr", "list"):
+                scns.append({"det": name, "variant": 0, "seed": seed, "prefix": prefix, "bad": bad})
+    drivers.run_scenarios(res, "mixed_width", scns, known)
     monitored_histories(res, "C14", ["C14"], tier, seed, known, with_faults=True)
     return res.finish()
